@@ -104,16 +104,33 @@ func c19out(panicked bool, s string) string {
 	return s
 }
 
+// c19scribble overwrites values a helper returned earlier: a helper that hands out shared or cached
+// storage then gives a wrong answer on the next call, which is the one recorded.
+func c19scribble(xs ...*big.Int) {
+	for _, x := range xs {
+		if x != nil {
+			x.Add(x, big.NewInt(0x5eed))
+			x.Neg(x)
+		}
+	}
+}
+
 func c19Mask(g *Gen, l, h uint) {
 	out := ""
-	p := c19call(g, "mask", func() { out = verifhooks.BigintMask(l, h).String() })
+	p := c19call(g, "mask", func() {
+		c19scribble(verifhooks.BigintMask(l, h))
+		out = verifhooks.BigintMask(l, h).String()
+	})
 	g.Line("c19", "mask", fmt.Sprint(l), fmt.Sprint(h), c19out(p, out), "1")
 	g.Count("mask")
 }
 
 func c19Ones(g *Gen, n uint) {
 	out := ""
-	p := c19call(g, "ones", func() { out = verifhooks.BigintOnes(n).String() })
+	p := c19call(g, "ones", func() {
+		c19scribble(verifhooks.BigintOnes(n))
+		out = verifhooks.BigintOnes(n).String()
+	})
 	g.Line("c19", "ones", fmt.Sprint(n), c19out(p, out), "1")
 	g.Count("ones")
 }
@@ -121,7 +138,10 @@ func c19Ones(g *Gen, n uint) {
 func c19Extract(g *Gen, x *big.Int, l, h uint) {
 	before := new(big.Int).Set(x)
 	out := ""
-	p := c19call(g, "extract", func() { out = verifhooks.BigintExtract(x, l, h).String() })
+	p := c19call(g, "extract", func() {
+		c19scribble(verifhooks.BigintExtract(new(big.Int).Set(x), l, h))
+		out = verifhooks.BigintExtract(x, l, h).String()
+	})
 	g.Line("c19", "extract", before.String(), fmt.Sprint(l), fmt.Sprint(h), c19out(p, out), b01(before.Cmp(x) == 0))
 	g.Count("extract")
 }
@@ -137,7 +157,10 @@ func c19IsPow2(g *Gen, x *big.Int) {
 func c19Pow2UpTo(g *Gen, x *big.Int) {
 	before := new(big.Int).Set(x)
 	out := ""
-	p := c19call(g, "pow2upto", func() { out = encInts(verifhooks.BigintPow2UpTo(x)) })
+	p := c19call(g, "pow2upto", func() {
+		c19scribble(verifhooks.BigintPow2UpTo(new(big.Int).Set(x))...)
+		out = encInts(verifhooks.BigintPow2UpTo(x))
+	})
 	g.Line("c19", "pow2upto", before.String(), c19out(p, out), b01(before.Cmp(x) == 0))
 	g.Count("pow2upto")
 }
@@ -187,8 +210,12 @@ func c19Parse(g *Gen, op, s string) {
 		var x *big.Int
 		var ok bool
 		if op == "hex" {
+			x, _ = verifhooks.BigintHex(s)
+			c19scribble(x)
 			x, ok = verifhooks.BigintHex(s)
 		} else {
+			x, _ = verifhooks.BigintBinary(s)
+			c19scribble(x)
 			x, ok = verifhooks.BigintBinary(s)
 		}
 		if ok && x != nil {
